@@ -93,6 +93,32 @@ class Stats:
             self.worst[kind] = (float(r), key)
 
 
+class MultiOutputColumn:
+    """column k of a multi-output predictor presented as a scalar-valued predictor: value p(x)[:, k], derivatives in the
+    layout the multi-output methods return them (n, k, d) / (n, k, d, d) / (n, k)"""
+
+    def __init__(self, p, k):
+        self._p, self._k = p, k
+        self.cov_func, self.x, self.mu = p.cov_func, p.x, p.mu
+        self.weights = np.asarray(p.weights, dtype=float)[:, k:k + 1]
+
+    def __call__(self, x):
+        return np.asarray(self._p(x), dtype=float)[:, self._k]
+
+    def gradient(self, x, jit=True):
+        return np.asarray(self._p.gradient(x, jit=jit), dtype=float)[:, self._k]
+
+    def hessian(self, x, jit=True):
+        return np.asarray(self._p.hessian(x, jit=jit), dtype=float)[:, self._k]
+
+    def hessian_log_determinant(self, x, jit=True):
+        s, l = self._p.hessian_log_determinant(x, jit=jit)
+        return np.asarray(s, dtype=float)[:, self._k], np.asarray(l, dtype=float)[:, self._k]
+
+
+ColumnView = MultiOutputColumn
+
+
 def check_predictor(ctx, cfg, p, X, xq, st, info=None):
     """all run-time clauses of the property on one fitted predictor; xq: query rows (full rows, time last)"""
     import jax.numpy as jnp
@@ -439,7 +465,8 @@ def run(ctx):
         key = "%s/%s/d=%d" % (cname, cfg["kernel"], cfg["d"])
         st.dist[key] = st.dist.get(key, 0) + 1
     shapes.update(st.shapes)
-    # multi-output predictors (function estimation): the stride-2 reshape rule of the shape model
+    # multi-output predictors (function estimation): the stride-2 reshape rule of the shape model, and - column by
+    # column - every run-time clause of check_predictor (finite differences with derived bounds, symmetry, slogdet, jit)
     try:
         rng = np.random.default_rng(ctx.seed + 3)
         Xf = rng.normal(size=(18, 2))
@@ -450,6 +477,15 @@ def run(ctx):
         xq = rng.normal(size=(5, 2))
         shapes[("DGradient", 5, 2, 3)] = tuple(np.asarray(pf.gradient(xq)).shape)
         shapes[("DHessian", 5, 2, 3)] = tuple(np.asarray(pf.hessian(xq)).shape)
+        infof = fd.Info(pf)
+        xqf = fd.query_points(np.random.default_rng(ctx.seed + 11), infof, Xf, 3 if not ctx.thorough else 6)
+        for kcol in range(Yf.shape[1]):
+            view = ColumnView(pf, kcol)
+            cfgf = dict(estimator="FunctionEstimator", gp_type="full", kernel="Matern52", d=2, n=18, columns=3, column=kcol,
+                        data="X = default_rng(seed+3).normal(size=(18,2)); Y = [sin x0, x1^2, x0*x1]; FunctionEstimator(gp_type='full', ls=1.0, sigma=0.1).fit(X, Y)",
+                        seed=ctx.seed, query_rows=xqf.tolist())
+            check_predictor(ctx, cfgf, view, Xf, xqf, st, fd.Info(view))
+            st.dist["multi-output column"] = st.dist.get("multi-output column", 0) + 1
     except Exception as e:  # noqa
         ctx.broken.append(Broken("harness", "function-estimator", "%s: %s" % (type(e).__name__, str(e)[:300])))
     n_shape = 0
